@@ -632,6 +632,9 @@ class TreeGen:
                                            "k": st.fixed_dictionaries({"header": opt, "children": items, "footer": opt})}))
         opts.append(st.fixed_dictionaries({"c": st.just("KwFirst"), "o": self.origin(), "p": self.props("KwFirst"),
                                            "k": st.fixed_dictionaries({"late": opt, "early": opt})}))
+        odd = st.fixed_dictionaries({"c": st.just("Odd"), "o": self.origin(),
+                                     "k": st.fixed_dictionaries({"self": opt, "node": opt, "arg": opt, "args": items, "o": opt, "i": opt})})
+        opts += [odd, odd.map(dict)]
         if self.noinit:
             ni = st.fixed_dictionaries({"c": st.just("NoInit"), "o": self.origin(),
                                         "k": st.fixed_dictionaries({"kid": opt, "last": opt})})
